@@ -18,6 +18,7 @@ import (
 	"reflect"
 	"strings"
 	"testing"
+	"unicode"
 
 	"golang.org/x/crypto/ssh"
 	"verif/ext"
@@ -99,19 +100,25 @@ func refCrypto(p *kf.Pub) any {
 // whose embedded algorithm name is that type (and, canonical, whose bytes are
 // key.Marshal()).
 func soundFor(line string, key ssh.PublicKey) (declared, exact bool) {
-	toks := strings.FieldsFunc(line, func(c rune) bool { return c == ' ' || c == '\t' || c == '\r' })
-	for j := 0; j+1 < len(toks); j++ {
-		if toks[j] != key.Type() {
-			continue
-		}
-		b, ok := b64dec(toks[j+1])
-		if !ok {
-			b, ok = b64dec(toks[j+1] + strings.Repeat("=", (4-len(toks[j+1])%4)%4))
-		}
-		if ok && blobAlgo(b) == key.Type() {
-			declared = true
-			if bytes.Equal(b, key.Marshal()) {
-				exact = true
+	// two tokenizations: blanks as sshd(8) says, and every Unicode space (the
+	// package trims/splits with those in places); announcing under either counts
+	for _, toks := range [][]string{
+		strings.FieldsFunc(line, func(c rune) bool { return c == ' ' || c == '\t' || c == '\r' }),
+		strings.FieldsFunc(line, unicode.IsSpace),
+	} {
+		for j := 0; j+1 < len(toks); j++ {
+			if toks[j] != key.Type() {
+				continue
+			}
+			b, ok := b64dec(toks[j+1])
+			if !ok {
+				b, ok = b64dec(toks[j+1] + strings.Repeat("=", (4-len(toks[j+1])%4)%4))
+			}
+			if ok && blobAlgo(b) == key.Type() {
+				declared = true
+				if bytes.Equal(b, key.Marshal()) {
+					exact = true
+				}
 			}
 		}
 	}
